@@ -69,20 +69,69 @@ Definition msd_str (th : nat) (data : list (list N)) : list (list N) :=
   msd_sort (list N) (fun s => s) lex_gtb th data.
 Definition isort_str (data : list (list N)) : list (list N) := isort_g (list N) lex_gtb data.
 
-(* ---- RadixSort::sort_bytes / sort_bytes_msd (Vec<Vec<u8>>): the same 257 buckets, no cut-off at all;
-   the recursion ends because a bucket i > 0 at depth d only holds strings longer than d.
-   fuel = longest string + 1 ---- *)
+(* ---- RadixSort::sort_bytes / sort_bytes_msd (Vec<Vec<u8>>): the same 257 buckets, no cut-off at all.
+   After fix 50ae740 every level first skips the bytes that all its strings have in common
+   (while d < first.len() && all(s.len() > d && s[d] == first[d]) { d += 1 }), then distributes on the
+   byte at that depth; the recursion ends because a bucket i > 0 at depth d only holds strings longer
+   than d.  fuel = longest string + 1 ---- *)
+Definition all_share (depth : nat) (data : list (list N)) : bool :=
+  match data with
+  | [] => false
+  | first :: _ =>
+    match nth_error first depth with
+    | None => false
+    | Some b => forallb (fun s => match nth_error s depth with Some c => c =? b | None => false end) data
+    end
+  end.
+Fixpoint skip_common (fuel depth : nat) (data : list (list N)) : nat :=
+  match fuel with
+  | O => depth
+  | S f => if all_share depth data then skip_common f (S depth) data else depth
+  end.
+Definition first_len (data : list (list N)) : nat := match data with [] => O | s :: _ => length s end.
+
 Fixpoint bytes_msd_go (fuel depth : nat) (data : list (list N)) : list (list N) :=
   match fuel with
   | O => data
   | S f =>
     if Nat.leb (length data) 1 then data
-    else flat_map (fun i => let b := msd_bucket (list N) (fun s => s) depth i data in
-                            if Nat.ltb 1 (length b) && Nat.ltb 0 i then bytes_msd_go f (S depth) b else b)
-                  (seq 0 257)
+    else
+      let d := skip_common (first_len data) depth data in
+      flat_map (fun i => let b := msd_bucket (list N) (fun s => s) d i data in
+                         if Nat.ltb 1 (length b) && Nat.ltb 0 i then bytes_msd_go f (S d) b else b)
+               (seq 0 257)
   end.
 Definition max_len (data : list (list N)) : nat := fold_left Nat.max (map (@length N) data) O.
 Definition sort_bytes (data : list (list N)) : list (list N) := bytes_msd_go (S (max_len data)) 0 data.
+
+(* the function before the fix: one recursion level per common byte.  Same result (ProofsMsd.v), but
+   the number of nested calls is the length of the common prefix: msd_levels counts them *)
+Fixpoint bytes_msd_go_unfixed (fuel depth : nat) (data : list (list N)) : list (list N) :=
+  match fuel with
+  | O => data
+  | S f =>
+    if Nat.leb (length data) 1 then data
+    else flat_map (fun i => let b := msd_bucket (list N) (fun s => s) depth i data in
+                            if Nat.ltb 1 (length b) && Nat.ltb 0 i then bytes_msd_go_unfixed f (S depth) b else b)
+                  (seq 0 257)
+  end.
+Definition sort_bytes_unfixed (data : list (list N)) : list (list N) :=
+  bytes_msd_go_unfixed (S (max_len data)) 0 data.
+(* nesting depth of the calls (1 = the outermost call only); skip = with / without the prefix skip *)
+Fixpoint msd_levels (skip : bool) (fuel depth : nat) (data : list (list N)) : nat :=
+  match fuel with
+  | O => O
+  | S f =>
+    if Nat.leb (length data) 1 then 1%nat
+    else
+      let d := if skip then skip_common (first_len data) depth data else depth in
+      S (fold_left Nat.max
+           (map (fun i => let b := msd_bucket (list N) (fun s => s) d i data in
+                          if Nat.ltb 1 (length b) && Nat.ltb 0 i then msd_levels skip f (S d) b else O)
+                (seq 0 257)) O)
+  end.
+Definition sort_bytes_levels (skip : bool) (data : list (list N)) : nat :=
+  msd_levels skip (S (max_len data)) 0 data.
 
 (* ---- u32 / u64: get_byte(p) = (x >> 8*(w-1-p)) & 0xFF for p < w ---- *)
 Fixpoint be_bytes (w : nat) (x : N) : list N :=
